@@ -18,6 +18,8 @@ func init() {
 		Mutants: []Mutant{
 			{Name: "gated-write-under-rlock", File: "cmd/serf/command/agent/gated_writer.go", Func: "func (w *GatedWriter) Write(", Old: "\tw.lock.Lock()\n\tdefer w.lock.Unlock()\n", New: "\tw.lock.RLock()\n\tdefer w.lock.RUnlock()\n", Expect: "R1"},
 			{Name: "flush-drains-after-unlock", File: "cmd/serf/command/agent/gated_writer.go", Func: "func (w *GatedWriter) Flush(", Old: "\tw.lock.Lock()\n\tdefer w.lock.Unlock()\n\n\tw.flush = true\n", New: "\tw.lock.Lock()\n\tw.flush = true\n\tw.lock.Unlock()\n", Expect: "R1"},
+			{Name: "stale-gate-check", File: "cmd/serf/command/agent/gated_writer.go", Func: "func (w *GatedWriter) Write(", Old: "\tw.lock.Lock()\n\tdefer w.lock.Unlock()\n\n\tif w.flush {\n\t\treturn w.Writer.Write(p)\n\t}\n", New: "\tw.lock.RLock()\n\tif w.flush {\n\t\tdefer w.lock.RUnlock()\n\t\treturn w.Writer.Write(p)\n\t}\n\tw.lock.RUnlock()\n\tw.lock.Lock()\n\tdefer w.lock.Unlock()\n", Expect: "R1|Write:buffers-only-while-closed"},
+			{Name: "fast-path-with-recheck", Equivalent: true, File: "cmd/serf/command/agent/gated_writer.go", Func: "func (w *GatedWriter) Write(", Old: "\tw.lock.Lock()\n\tdefer w.lock.Unlock()\n\n\tif w.flush {\n", New: "\tw.lock.RLock()\n\tif w.flush {\n\t\tdefer w.lock.RUnlock()\n\t\treturn w.Writer.Write(p)\n\t}\n\tw.lock.RUnlock()\n\tw.lock.Lock()\n\tdefer w.lock.Unlock()\n\n\tif w.flush {\n"},
 			{Name: "logwriter-unlocked-register", File: "cmd/serf/command/agent/log_writer.go", Func: "func (l *logWriter) RegisterHandler(", Old: "\tl.Lock()\n\tdefer l.Unlock()\n\n\t// Do nothing if already registered\n", New: "\t// Do nothing if already registered\n", Expect: "R"},
 			{Name: "replay-newest-first", File: "cmd/serf/command/agent/log_writer.go", Func: "func (l *logWriter) RegisterHandler(", Old: "\tif l.logs[l.index] != \"\" {\n\t\tfor i := l.index; i < len(l.logs); i++ {\n\t\t\tlh.HandleLog(l.logs[i])\n\t\t}\n\t}\n\tfor i := 0; i < l.index; i++ {\n\t\tlh.HandleLog(l.logs[i])\n\t}\n", New: "\tfor i := 0; i < l.index; i++ {\n\t\tlh.HandleLog(l.logs[i])\n\t}\n\tif l.logs[l.index] != \"\" {\n\t\tfor i := l.index; i < len(l.logs); i++ {\n\t\t\tlh.HandleLog(l.logs[i])\n\t\t}\n\t}\n", Expect: "R2"},
 			{Name: "register-after-replay-unlocked", File: "cmd/serf/command/agent/log_writer.go", Func: "func (l *logWriter) RegisterHandler(", Old: "\t// Register\n\tl.handlers[lh] = struct{}{}\n", New: "\t// Register\n\tdefer func() { l.handlers[lh] = struct{}{} }()\n", Expect: "R2"},
@@ -30,6 +32,7 @@ func init() {
 		Run: runC30,
 		Mutants: []Mutant{
 			{Name: "persist-before-validation", File: "cmd/serf/command/agent/agent.go", Func: "func (a *Agent) SetTags(", Old: "a.writeTagsFile(a.conf.Tags)", New: "a.writeTagsFile(tags)", Expect: "R2"},
+			{Name: "no-persist-when-serf-errs", File: "cmd/serf/command/agent/agent.go", Func: "func (a *Agent) SetTags(", Old: "\terr := a.serf.SetTags(tags)\n", New: "\terr := a.serf.SetTags(tags)\n\tif err != nil {\n\t\treturn err\n\t}\n", Expect: "R2|SetTags:persists-on-every-exit"},
 			{Name: "delete-only-last-key", File: "cmd/serf/command/agent/ipc.go", Func: "func (i *AgentIPC) handleTags(", Old: "delTag = (delTag || delkey == key)", New: "delTag = (delkey == key)", Expect: "R1"},
 			{Name: "old-tags-win", File: "cmd/serf/command/agent/ipc.go", Func: "func (i *AgentIPC) handleTags(", Old: "\ttags := make(map[string]string)\n\n", New: "\ttags := make(map[string]string)\n\tmaps.Copy(tags, req.Tags)\n\n", Expect: "R1"},
 			{Name: "edit-live-map", File: "cmd/serf/command/agent/ipc.go", Func: "func (i *AgentIPC) handleTags(", Old: "\ttags := make(map[string]string)\n", New: "\ttags := i.agent.SerfConfig().Tags\n", Expect: "R1"},
@@ -123,6 +126,22 @@ func runC29(c *an.Ctx) {
 		for _, p := range pass {
 			c.Add(an.GuardedBy(wr, p, an.Cmp{L: "$0.flush", Op: "==", R: "c:true"}) && locks.Held(p).HasAny(gl), "R1", "Write:pass-through", p, "a line goes straight to the underlying writer only when the gate is open, with the lock held", "edge dominance + lockset")
 			c.Add(an.Path(an.CallOf(p).Args[0]) == "$1", "R1", "Write:pass-through-bytes", p, "the bytes passed through are the caller's", "argument path")
+		}
+		// check-then-act: a line is buffered only when the gate was seen closed in the very
+		// critical section that buffers it (otherwise a Flush in between drains first and the line is lost)
+		nb := 0
+		for _, a := range an.FieldAccesses([]*ssa.Function{wr}, "GatedWriter", "buf") {
+			if a.Kind != "store" {
+				continue
+			}
+			nb++
+			why := guardReadInSection(wr, a.Instr, an.Cmp{L: "$0.flush", Op: "==", R: "c:false"}, gl)
+			c.Add(why == "", "R1", "Write:buffers-only-while-closed", a.Instr, "a line is appended to the buffer only when the gate is closed, tested in the same exclusive section as the append "+why, "edge dominance + no release between test and append")
+		}
+		c.Floor("R1", "buffer appends in Write", nb, 1)
+		for _, p := range pass {
+			why := guardReadInSection(wr, p, an.Cmp{L: "$0.flush", Op: "==", R: "c:true"}, gl)
+			c.Add(why == "", "R1", "Write:pass-through-in-section", p, "the gate is tested in the section that passes the line through "+why, "edge dominance + no release between test and write")
 		}
 		// the buffered copy is a private copy of the caller's bytes
 		okCopy := false
@@ -324,6 +343,31 @@ func runC30(c *an.Ctx) {
 			}
 			c.Add(ok, "R2", "SetTags:persists-effective-tags", w, "the tags file receives the tags in effect: the configuration's tags read after Serf's SetTags ran, or the edit only once Serf accepted it (writes "+arg+")", "argument path + dominance/edge dominance")
 			c.Add(an.GuardedBy(st, w, an.Cmp{L: "$0.agentConf.TagsFile", Op: "!=", R: `c:""`}), "R2", "SetTags:only-with-file", w, "the file is written only when one is configured", "edge dominance")
+		}
+		// the file is rewritten on every way out after Serf's SetTags ran, unless no file is configured.
+		// Leaving early on Serf's error is allowed only if Serf's SetTags cannot fail after it changed
+		// the tags (it can: the broadcast may time out after config.Tags was assigned).
+		if len(ser) == 1 {
+			cut := an.EdgesImplying(st, an.Cmp{L: "$0.agentConf.TagsFile", Op: "==", R: `c:""`})
+			errAfterEffect := true
+			if sst := c.P.Method(serf, "Serf", "SetTags"); c.NeedFunc("R2", sst, "serf.(*Serf).SetTags") {
+				errAfterEffect = false
+				for _, s := range an.StoresTo(sst, ".config.Tags") {
+					bad := an.ReachFrom(sst, s, nil, func(in ssa.Instruction) bool {
+						r, ok := in.(*ssa.Return)
+						return ok && !an.IsNilConst(an.ResultValues(r)[0])
+					})
+					if bad != nil {
+						errAfterEffect = true
+					}
+				}
+			}
+			if !errAfterEffect {
+				cut = append(cut, an.EdgesImplying(st, an.Cmp{L: an.Path(ser[0].(ssa.Value)), Op: "!=", R: "c:nil"})...)
+			}
+			isW := func(in ssa.Instruction) bool { return an.IsCallTo(in, "(*Agent).writeTagsFile") }
+			ex := an.ReachFrom(st, ser[0], &an.Cut{Edges: cut, Instrs: isW}, an.IsExit)
+			c.Add(ex == nil, "R2", "SetTags:persists-on-every-exit", st, "after Serf's SetTags ran (it may fail after the new tags took effect: error-after-effect="+bstr(errAfterEffect)+") every way out rewrites the tags file when one is configured", "must-pass (reach/cut) from the Serf call to the exits")
 		}
 		// a.conf is the configuration Serf was created with
 		if cr := am(c, "R2", "Agent", "Start"); cr != nil {
